@@ -29,7 +29,7 @@ ASSUMPTIONS = [
     "in the main workload HMM methods are driven with at least one autosome holding >= 3 surviving bins (the model is fitted on autosomes); the 'degenerate' workload drives one-bin and constant tables through every method; cbs/flasso need R, which is not installed: their clauses are not observed",
     "calls with a variants argument (allele-frequency re-segmentation) are out of domain: the statement is about bins",
 ]
-BUDGET_S = {"quick": 240, "thorough": 1500}
+BUDGET_S = {"quick": 600, "thorough": 2400}
 HASHSEEDS = ["0", "1", "7", "123"]
 
 AUTOS = ["1", "2", "7", "19"]
